@@ -911,6 +911,25 @@ func (vc *VC) trCall(x *ECall, env *Env) TV {
 			return vc.errTV("ifaceloc of %s", a.T)
 		}
 		return TV{T: types.Typ[types.UnsafePointer], S: sx("iptr", a.S)}
+	case "sentat", "sentcount", "recvcount":
+		// sentat(ch, k): the k-th message ever sent on the tracked channel ch; sentcount(ch) / recvcount(ch):
+		// number of sends / receives so far
+		a := vc.tr(x.Args[0], env)
+		ct, ok := a.T.Underlying().(*types.Chan)
+		if !ok {
+			return vc.errTV("%s needs a channel", x.Fn)
+		}
+		f := vc.fifoFn()
+		I := types.Typ[types.Int]
+		switch x.Fn {
+		case "sentat":
+			k := vc.coerceInt(vc.tr(x.Args[1], env), I)
+			return TV{T: ct.Elem(), S: sx(f, a.S, k.S)}
+		case "sentcount":
+			return TV{T: I, S: vc.envHeapRead(env, "#fifo.sendn", I, a.S)}
+		default:
+			return TV{T: I, S: vc.envHeapRead(env, "#fifo.recvn", I, a.S)}
+		}
 	case "callres":
 		// callres(f, a...): the result of calling the function-valued argument f (a closure literal of
 		// the calling function) on a..., given by the closure's own (separately proved) contract
